@@ -507,6 +507,27 @@ func (st *runState) paths() []string {
 // every served row exactly once, grouped under one object per label set.
 func (st *runState) checkDocument(r *reqRec, add func(p, oracle, sig, detail string)) {
 	rq := r.Req
+	if r.Status >= 500 && !r.Cancelled && rq.Result.ErrAtRow == 0 && rq.Result.StallAtRow == 0 && !rq.Result.QueryErr && !rq.NoDB && st.s.ConnErrs == 0 &&
+		rq.Result.NullAtRow == 0 && rq.Result.TraceShape == 0 && !rq.Mutated && r.Panicked == "" {
+		// the database answered every statement of a well-formed request with rows, nothing failed, and the client is told
+		// "server error": the rows are in no document at all
+		served, aborted := 0, false
+		for _, s := range r.Stmts {
+			if s.Class == "data" {
+				served += s.Served
+				aborted = aborted || s.Aborted || s.Err != ""
+			}
+		}
+		if served > 0 && !aborted {
+			body := r.Body.String()
+			if len(body) > 120 {
+				body = body[:120]
+			}
+			add("C15", "rows-answered-with-server-error", "served rows are answered with a server error instead of a document: "+rq.Kind+" "+classOfQuery(rq.Query),
+				fmt.Sprintf("req%d %s: %d rows served without any fault, status %d, body %q; result script %+v", r.ID, r.Path, served, r.Status, body, brief(rq.Result)))
+		}
+		return
+	}
 	if r.Status != 200 || r.Cancelled || rq.Result.ErrAtRow > 0 || rq.Result.StallAtRow > 0 || rq.Result.QueryErr || rq.NoDB || st.s.ConnErrs > 0 {
 		return
 	}
